@@ -77,7 +77,14 @@ func (n *NTPSuboptionSrvFQDN) String() string {
 
 // FromBytes parses an NTP server FQDN from a byte slice p.
 func (n *NTPSuboptionSrvFQDN) FromBytes(p []byte) error {
-	return n.Labels.FromBytes(p)
+	if err := n.Labels.FromBytes(p); err != nil {
+		return err
+	}
+	// RFC 5908, Section 4.3: the suboption carries exactly one FQDN.
+	if len(n.Labels.Labels) != 1 {
+		return fmt.Errorf("NTP server FQDN suboption holds %d names, want 1", len(n.Labels.Labels))
+	}
+	return nil
 }
 
 // NTPSuboptionSrvAddr is the value of NTP_SUBOPTION_SRV_ADDR according to RFC 5908.
